@@ -466,7 +466,9 @@ func (s *Smr) handleReceivedVoteMsg(msg *xuperp2p.XuperMessage) error {
 		return err
 	}
 	// 检查logid、voteInfoHash是否正确
-	if err := s.saftyrules.CheckVote(voteQC, msg.GetHeader().GetLogid(), s.Election.GetValidators(voteQC.GetProposalView())); err != nil {
+	// validators只获取一次: 验证投票人和计算阈值必须使用同一个集合, 第二次读取失败(nil)时len为0, CalVotesThreshold(x, 0)恒为true
+	validators := s.Election.GetValidators(voteQC.GetProposalView())
+	if err := s.saftyrules.CheckVote(voteQC, msg.GetHeader().GetLogid(), validators); err != nil {
 		s.log.Error("smr::handleReceivedVoteMsg CheckVote error", "error", err, "msg", utils.F(voteQC.GetProposalId()))
 		return err
 	}
@@ -505,7 +507,7 @@ func (s *Smr) handleReceivedVoteMsg(msg *xuperp2p.XuperMessage) error {
 		VoteLen = len(signs)
 	}
 	// 查看签名数量是否达到2f+1, 需要获取justify对应的validators
-	if !s.saftyrules.CalVotesThreshold(VoteLen, len(s.Election.GetValidators(voteQC.GetProposalView()))) {
+	if !s.saftyrules.CalVotesThreshold(VoteLen, len(validators)) {
 		return nil
 	}
 
